@@ -97,7 +97,7 @@ def _rand_val(rng, name, dtype):
     if dtype == "bool":
         return rng.random() < 0.5
     if dtype == "b":
-        return rng.choice([b"01", b"ZZ", b"0A"])
+        return rng.choice(["bytes:01", "bytes:ZZ", "bytes:0A"])
     return rng.choice(["", "x.wav", "y:z", "ü"])
 
 
@@ -158,7 +158,7 @@ def _gen_ops(rng, hold, rows, props, n_ops):
 
 def generate(rng, tier):
     cls = classes()
-    reps = 2 if tier == "quick" else 60
+    reps = 5 if tier == "quick" else 80
     cases = []
     for ci, c in enumerate(cls):
         props = c._item_class()._props
@@ -179,10 +179,13 @@ def generate(rng, tier):
 
 # ------------------------------------------------------------------ implementation side
 def _mkdf(rows, props, labels, rng_seed=0):
+    rows = [{k: (v[6:].encode() if isinstance(v, str) and v.startswith("bytes:") else v) for k, v in r.items()} for r in rows]
     df = pd.DataFrame(rows, columns=list(props.keys()))
     for k, v in props.items():
         if v[0] in ("float", "int", "bool") and len(df):
             df[k] = df[k].astype(v[0])
+        elif len(df):
+            df[k] = df[k].astype(object)
     n = len(df)
     if labels == "shifted":
         df.index = range(5, 5 + n)
@@ -286,7 +289,18 @@ def _apply(lst, o, it, props):
     return {"t": "frame", "v": FR.frame_json(r.df, it)}, r
 
 
+def _decode(x):
+    if isinstance(x, str) and x.startswith("bytes:"):
+        return x[6:].encode()
+    if isinstance(x, list):
+        return [_decode(y) for y in x]
+    if isinstance(x, dict):
+        return {k: _decode(v) for k, v in x.items()}
+    return x
+
+
 def execute(case):
+    case = _decode(case)
     c = classes()[case["cls"]]
     if c.__name__ != case["cls_name"]:
         raise RuntimeError("class table changed between generation and execution")
@@ -326,7 +340,7 @@ def execute(case):
             items_json = []
         return {"declared": [FR.col_id(n) for n in declared], "defaults": defaults, "items": items_json,
                 "out": FR.frame_json(lst.df, it), "out_names": list(map(str, lst.df.columns))}
-    lst = c(_mkdf(case["rows"], props, case["labels"]))
+    lst = c(_mkdf(case["rows"], props, case["labels"])) if case["rows"] else c([])
     steps = []
     for o in case["ops"]:
         before = FR.frame_json(lst.df, it)
